@@ -406,7 +406,13 @@ func (l *lexer) next() rune {
 }
 
 func (l *lexer) nextToken() Token {
-	return <-l.tokens
+	tok, ok := <-l.tokens
+	if !ok {
+		// the lexer has finished: keep answering EOF instead of zero tokens,
+		// otherwise a parser loop waiting for EOF/Section never ends
+		return Token{Location: l.prev, Kind: EOF}
+	}
+	return tok
 }
 
 func (l *lexer) peek() rune {
